@@ -30,7 +30,7 @@ func DecodeMfhd(hdr BoxHeader, startPos uint64, r io.Reader) (Box, error) {
 		Version:        version,
 		Flags:          flags,
 		SequenceNumber: sequenceNumber,
-	}, nil
+	}, s.AccError()
 }
 
 // DecodeMfhdSR - box-specific decode
